@@ -62,7 +62,10 @@ def canon_conds(events, values, n, dt, distinct_neighbours=True):
 
 
 def observe(rla):
-    return (rla.to_array(), np.asarray(rla), len(rla), rla.size, rla.shape[0], rla.dtype == rla.to_array().dtype, rla.starts, rla.ends, rla.values, rla.ndim)
+    first = rla.to_array()
+    kept = first.copy()
+    first[...] = 0          # the decoded array is the caller's: overwriting it must not reach the encoded array (everything below is read afterwards)
+    return (kept, np.asarray(rla), len(rla), rla.size, rla.shape[0], rla.dtype == rla.to_array().dtype, rla.starts, rla.ends, rla.values, rla.ndim)
 
 
 def sym(E, p, kf):
@@ -148,9 +151,13 @@ def jobs_step(tier, seed):
     out = [dict(h="C14.stepslice", p=dict(ix="slice", n=4 if q else 5, s=s)) for s in ((2, -2, 3) if q else (2, -2, 3, -3))]
     # selections by masks (dense, run-length, run-length from a comparison): canonical result, the empty selection included
     out += [dict(h="C14.stepslice", p=dict(ix=ix, n=3 if q else 4)) for ix in ("mask", "rlmask", "rlmask_ufunc")]
+    # float cells (equal infinities, signed zeros): stepped slices still join equal neighbours
+    out += [dict(h="C14.stepslice", p=dict(ix="slice", n=4, s=s, dtype="float16")) for s in (2, -2)]
     # ufuncs on two run-length operands (independent, and derived from one array so that they share its boundaries): canonical results
     out += [dict(h="C14.ufunc2", p=dict(kind="rr_shared", op=op, n=3 if q else 4)) for op in ("between", "selfsub", "timesmask")]
     out += [dict(h="C14.ufunc2", p=dict(kind="rr", op=op, n=3)) for op in ("subtract", "less")]
+    # concatenation: boundaries of the result start at 0, increase strictly, end at the total length (and it decodes to the concatenation)
+    out += [dict(h="C14.ufunc2", p=dict(kind="concat", op="concatenate", n=2, **kw)) for kw in (dict(), dict(dta="int8", dtb="int16"), dict(three=True))]
     return out
 
 
